@@ -1569,9 +1569,211 @@ Proof.
     + pose proof (HF T (-1)%Z) as E2. destruct (finish _ _ _ _ _) as [T2 e2].
       cbn [fst] in *. ssimp. rewrite upd_same. congruence.
     + cbn [fst]. ssimp. rewrite upd_same. tsimp. auto.
-  - (* S4 *) exfalso. apply Hn. destruct (rnext s (cur T) =? 0).
-    + pose proof (HF (set_rlist T (scan_keep sort (snap T) (rlist T)))
-                     (Z.of_nat (length (scan_keep sort (snap T) (rlist T))))) as E2.
-      destruct (finish _ _ _ _ _) as [T2 e2]. cbn [fst] in *. ssimp. rewrite upd_same. rewrite E2. tsimp. auto.
-    + cbn [fst]. ssimp. rewrite upd_same. tsimp. auto.
 Qed.
+
+Lemma use_live_of_inv s t :
+  Inv s -> pc (thr s t) = U1 -> in_pool s (held (thr s t) (sl (thr s t))) = false.
+Proof.
+  intros I Hpc. assert (LT := r_loc s (i_r s I) t). unfold rlocal, rlocalP in LT. rewrite Hpc in LT.
+  destruct LT as (_ & _ & Hn). destruct (v_held s (i_v s I) t _ Hn) as (_ & _ & _ & Hp & _).
+  unfold in_pool. destruct (existsb _ _) eqn:X; auto. exfalso. apply Hp.
+  apply existsb_exists in X. destruct X as [x [Hx E]]. apply Nat.eqb_eq in E. subst; auto.
+Qed.
+
+(* the partition computed by a scan, for any snapshot and retired list *)
+Lemma filter_partition_perm (f : nat -> bool) l :
+  Permutation l (filter f l ++ filter (fun n => negb (f n)) l).
+Proof.
+  induction l as [|a l IH]; cbn [filter]; auto. destruct (f a); cbn [negb app].
+  - constructor; auto.
+  - apply Permutation_cons_app; auto.
+Qed.
+
+Lemma scan_partition_gen sn rl : NoDup rl ->
+  Permutation rl (scan_keep sort sn rl ++ scan_gc sort sn rl) /\
+  (forall n, In n (scan_gc sort sn rl) <-> In n rl /\ ~ In n sn) /\
+  (forall n, In n (scan_keep sort sn rl) <-> In n rl /\ In n sn) /\
+  NoDup (scan_keep sort sn rl) /\ NoDup (scan_gc sort sn rl).
+Proof.
+  intros Hnd.
+  assert (BS : forall n, bsearch (sort sn) n = true <-> In n sn).
+  { intros n. rewrite bsearch_correct by auto. split; intros H.
+    - eapply Permutation_in; [apply Permutation_sym, sort_perm|exact H].
+    - eapply Permutation_in; [apply sort_perm|exact H]. }
+  split; [|split; [|split; [|split]]].
+  - unfold scan_keep, scan_gc. eapply Permutation_trans; [apply (filter_partition_perm (bsearch (sort sn)))|].
+    apply Permutation_app_tail. apply Permutation_rev.
+  - intros n. rewrite gc_in, <- BS. destruct (bsearch (sort sn) n); split; intros [A B]; split; auto; congruence.
+  - intros n. rewrite keep_in, BS. tauto.
+  - apply keep_nodup; auto.
+  - apply gc_nodup; auto.
+Qed.
+
+Lemma reclaim_once_of_inv s t n :
+  Inv s -> In n (gc_list s t) ->
+  In n (rlist (thr s t)) /\ ~ In n (pool s) /\ (forall u, u <> t -> ~ In n (rlist (thr s u))) /\
+  (forall j, cell s j <> n) /\ NoDup (gc_list s t) /\
+  ~ In n (keep_list s t).
+Proof.
+  intros I Hin. pose proof (i_n s I) as N. unfold gc_list in *.
+  destruct (pc (thr s t)); try (destruct Hin; fail).
+  destruct (rnext s (cur (thr s t)) =? 0); [|destruct Hin].
+  pose proof Hin as Hin'. apply gc_in in Hin. destruct Hin as [Hr Hb].
+  split; auto. split; [intros X; apply (n_pool_rl s N n t X Hr)|].
+  split; [intros u Hu X; apply Hu; symmetry; apply (n_rl_disj s N t u n); auto|].
+  split; [intros j; apply (n_rl_cell s N t n j Hr)|].
+  split; [apply gc_nodup, (n_rl_nd s N)|].
+  unfold keep_list. rewrite keep_in. intros [_ X]. congruence.
+Qed.
+
+Definition nrec (s : st) : nat := length (recs s).
+
+Lemma thr_le_of_inv s r : Inv s -> In r (recs s) ->
+  2 * length (from r (recs s)) * kslots s <= rthr s r <= 2 * nrec s * kslots s.
+Proof.
+  intros I Hr. split; [apply (r_thr s (i_r s I) r Hr)|].
+  pose proof (t_eq s (i_t s I) r Hr). unfold nrec. lia.
+Qed.
+
+Lemma bounded_of_inv s t : Inv s ->
+  length (rlist (thr s t)) <= max (rthr s (S t) - 1) (nrec s * kslots s) + in_retire (thr s t) /\
+  length (rlist (thr s t)) <= 2 * nrec s * kslots s.
+Proof.
+  intros I. pose proof (b_len s (i_b s I) t) as L. unfold rbound in L. split; [exact L|].
+  destruct (joined (thr s t)) eqn:J.
+  - assert (Hin : In (S t) (recs s)) by (apply (r_join s (i_r s I)); auto).
+    destruct (thr_le_of_inv s (S t) I Hin) as [_ U].
+    assert (1 <= nrec s) by (unfold nrec; destruct (recs s); [destruct Hin|cbn; lia]).
+    pose proof (r_K s (i_r s I)). unfold in_retire in L. fold (nrec s) in L.
+    assert (in_retire (thr s t) <= 1) by (unfold in_retire; destruct (pc (thr s t)); lia).
+    unfold in_retire in *. nia.
+  - rewrite (b_nj s (i_b s I) t J). cbn. lia.
+Qed.
+
+Lemma after_scan_of_inv s t : Inv s -> scan_ends s t ->
+  length (keep_list s t) <= length (from (chead (thr s t)) (recs s)) * kslots s /\
+  length (keep_list s t) <= nrec s * kslots s.
+Proof.
+  intros I [Hpc Hnx]. pose proof (i_r s I) as R.
+  assert (BT := b_loc s (i_b s I) t). unfold blocal in BT. rewrite Hpc in BT. destruct BT as (X1 & X2 & X3).
+  assert (LT := r_loc s R t). unfold rlocal, rlocalP in LT. rewrite Hpc in LT. destruct LT as [_ Hc].
+  destruct (from_next (rnext s) (recs s) _ (r_nodup s R) (r_link s R) (r_nz s R) Hc) as [[A B]|[A _]]; [|contradiction].
+  rewrite B in X2. cbn [length] in X2. pose proof (keep_length s t (i_n s I)) as KL. unfold keep_list.
+  assert (length (from (chead (thr s t)) (recs s)) * kslots s <= nrec s * kslots s).
+  { apply Nat.mul_le_mono_r. apply from_length. }
+  lia.
+Qed.
+
+(* an unprotected retired node does not survive the scan *)
+Lemma unprotected_reclaimed s t n : Inv s -> scan_ends s t ->
+  In n (rlist (thr s t)) -> ~ In n (snap (thr s t)) -> In n (gc_list s t).
+Proof.
+  intros I [Hpc Hnx] Hr Hs. unfold gc_list. rewrite Hpc, Hnx. cbn [Nat.eqb].
+  apply (scan_partition_gen (snap (thr s t)) (rlist (thr s t)) (n_rl_nd s (i_n s I) t)). auto.
+Qed.
+
+(* the retire test: a scan starts iff retired_count >= retire_threshold *)
+Lemma retire_triggers s t : pc (thr s t) = R1 ->
+  (rthr s (S t) <= length (rlist (thr s t)) -> pc (thr (fst (step sort s t)) t) = S1) /\
+  (length (rlist (thr s t)) < rthr s (S t) ->
+     start_ok (kslots s) (ncell s) (thr (fst (step sort s t)) t) /\ rlist (thr (fst (step sort s t)) t) = rlist (thr s t)).
+Proof.
+  intros Hpc. unfold step. rewrite Hpc. split; intros H.
+  - destruct (Nat.leb_spec (rthr s (S t)) (length (rlist (thr s t)))); [|lia]. cbn [fst]. ssimp.
+    rewrite upd_same. reflexivity.
+  - destruct (Nat.leb_spec (rthr s (S t)) (length (rlist (thr s t)))); [lia|].
+    pose proof (finish_ok (kslots s) (ncell s) t (thr s t) (Z.of_nat (length (rlist (thr s t))))) as [[_ [A _]] B].
+    destruct (finish _ _ _ _ _) as [T2 e2]. cbn [fst] in *. ssimp. rewrite upd_same. auto.
+Qed.
+
+Lemma from_suffix c l : exists pre, l = pre ++ from c l.
+Proof.
+  induction l as [|r rest [pre IH]]; cbn [from]; [exists []; reflexivity|].
+  destruct (r =? c); [exists []; reflexivity|]. exists (r :: pre). cbn. now rewrite <- IH.
+Qed.
+
+Lemma hd_not_in_tl_from c l : NoDup l -> ~ In (hd 0 l) (tl (from c l)).
+Proof.
+  intros Hnd. destruct (from_suffix c l) as [pre E].
+  destruct (from c l) as [|c' tl0] eqn:F; [cbn; tauto|]. cbn [tl].
+  rewrite E in Hnd |- *. destruct pre as [|p pre]; cbn [app hd] in *.
+  - inversion Hnd; auto.
+  - inversion Hnd as [|? ? Hp _]; subst. intros X. apply Hp. apply in_or_app. right. right. exact X.
+Qed.
+
+Lemma filter_nil_all (f : nat -> bool) l : (forall x, In x l -> f x = false) -> filter f l = [].
+Proof.
+  induction l as [|a l IH]; cbn [filter]; auto. intros H. rewrite (H a) by (left; auto).
+  apply IH. intros x Hx. apply H. right; auto.
+Qed.
+
+Lemma inb_false r l : ~ In r l -> inb r l = false.
+Proof. intros H. destruct (inb r l) eqn:X; auto. apply inb_In in X. tauto. Qed.
+
+Lemma threshold_of_inv s r : Inv s -> In r (recs s) ->
+  (2 * length (from r (recs s)) * kslots s <= rthr s r <= 2 * nrec s * kslots s) /\
+  (r = head s -> rthr s r = 2 * nrec s * kslots s) /\
+  ((forall t, ~ bumping (thr s t)) -> rthr s r = 2 * nrec s * kslots s).
+Proof.
+  intros I Hr. split; [apply thr_le_of_inv; auto|].
+  pose proof (t_eq s (i_t s I) r Hr) as E. pose proof (i_r s I) as R. unfold nrec. split.
+  - intros Eh. replace (pend s r) with 0 in E; [lia|]. symmetry. unfold pend.
+    apply length_zero_iff_nil. apply filter_nil_all. intros r' Hr'.
+    unfold pendf, pendb. assert (Lu := r_loc s R (pred r')). unfold rlocal, rlocalP in Lu.
+    assert (Er' : S (pred r') = r').
+    { destruct r'; [exfalso; apply (r_nz s R); auto|reflexivity]. }
+    rewrite Er' in Lu. rewrite Eh, (r_head s R).
+    destruct (pc (thr s (pred r'))); auto; apply inb_false.
+    + apply hd_not_in_tl_from. apply (r_nodup s R).
+    + destruct Lu as [_ Lu]. intros X. apply (hd_not_in_tl_from r' (recs s) (r_nodup s R)).
+      apply (from_tl_incl r' _ (recs s) (r_nodup s R) Lu). exact X.
+    + destruct Lu as [_ Lu]. intros X. apply (hd_not_in_tl_from r' (recs s) (r_nodup s R)).
+      apply (from_tl_incl r' _ (recs s) (r_nodup s R) Lu).
+      destruct (from (cur (thr s (pred r'))) (recs s)); [destruct X|right; exact X].
+  - intros Q. replace (pend s r) with 0 in E; [lia|]. symmetry. unfold pend.
+    apply length_zero_iff_nil. apply filter_nil_all. intros r' _. unfold pendf. apply pendb_idle. apply Q.
+Qed.
+
+Lemma plist_of_inv s t : Inv s ->
+  (pc (thr s t) = S3 -> length (snap (thr s t)) < maxp (thr s t)) /\
+  (pc (thr s t) = S4 -> length (snap (thr s t)) <= maxp (thr s t)).
+Proof.
+  intros I. pose proof (i_r s I) as R.
+  assert (BT := b_loc s (i_b s I) t). unfold blocal in BT.
+  assert (LT := r_loc s R t). unfold rlocal, rlocalP in LT.
+  split; intros Hpc; rewrite Hpc in *.
+  - destruct BT as (X1 & X2 & X3). destruct LT as (_ & Hc & Hi).
+    destruct (from_in_hd _ _ Hc) as [tl0 E]. rewrite E in X2. cbn [length] in X2. nia.
+  - destruct BT as (X1 & X2 & X3). destruct LT as (_ & Hc).
+    destruct (from_in_hd _ _ Hc) as [tl0 E]. rewrite E in X2. cbn [length] in X2. nia.
+Qed.
+
+End Proofs.
+
+(* ================================================================== *)
+(* K. the executable instance: insertion sort is a sorted permutation   *)
+(* ================================================================== *)
+Lemma insert_perm x l : Permutation (x :: l) (insert x l).
+Proof.
+  induction l as [|y r IH]; cbn [insert]; auto. destruct (x <=? y); auto.
+  eapply Permutation_trans; [apply perm_swap|]. constructor. exact IH.
+Qed.
+
+Lemma isort_perm l : Permutation l (isort l).
+Proof.
+  induction l as [|x r IH]; cbn [isort]; auto.
+  eapply Permutation_trans; [|apply insert_perm]. constructor. exact IH.
+Qed.
+
+Lemma insert_sorted x l : Sorted le l -> Sorted le (insert x l).
+Proof.
+  induction l as [|y r IH]; intros H; cbn [insert]; [repeat constructor|].
+  destruct (Nat.leb_spec x y).
+  - constructor; auto.
+  - inversion H as [|? ? Hs Hh]; subst. constructor; [apply IH; auto|].
+    destruct r as [|z r']; cbn [insert]; [constructor; lia|].
+    destruct (Nat.leb_spec x z); constructor; try lia. inversion Hh; auto.
+Qed.
+
+Lemma isort_sorted l : Sorted le (isort l).
+Proof. induction l as [|x r IH]; cbn [isort]; [constructor|]. apply insert_sorted; auto. Qed.
